@@ -99,20 +99,28 @@ CORPUS = [
 ]
 
 
+def _shipped(ctx):
+    """the shipped pairs with a deformed conformation of the coarse-grained molecule"""
+    rs = ctx.np_rng("shipped")
+    return [(sp, deform(rs, sp)) for sp in E.shipped_specs(ctx.n(40, 10 ** 6)) if sp["n_ref"] >= 3 and sp["s"] == 0.5]
+
+
 def corpus(ctx):
     S = ctx.cov["S"]
     S["corpus"] = 0
-    for spec, refp in CORPUS:
-        bad = shape_failures(spec, refp, list(range(spec["n_ref"])))
+    for spec, refp in CORPUS + _shipped(ctx):
+        probes = list(range(min(spec["n_ref"], 40)))
+        bad = shape_failures(spec, refp, probes)
         S["corpus"] += 1
         if bad:
             ctx.violation("deformation: " + "; ".join(bad),
-                          {"kind": "c03", "spec": spec, "refp": refp, "probes": list(range(spec["n_ref"]))}, key="shape")
+                          {"kind": "c03", "spec": spec, "refp": np.array(refp).tolist(), "probes": probes}, key="shape")
 
 
 def correspondence(ctx):
     rs = ctx.np_rng("K")
-    items = [(spec, refp, {"kind": "c03", "stream": "corpus"}) for spec, refp in CORPUS]
+    items = [(spec, refp, {"kind": "c03", "stream": "corpus"})
+             for spec, refp in CORPUS + _shipped(ctx)]
     for i in range(ctx.n(330, 5000)):
         spec = E.gen_spec(rs, E.GEOMS_GENERIC[i % len(E.GEOMS_GENERIC)])
         items.append((spec, deform(rs, spec), {"kind": "c03", "stream": "generic"}))
